@@ -321,6 +321,72 @@ def _symbolic_for(interp, s, frame, state, space):
             raise EngineError("loop body has no normal path")
         return _summarise_multi(interp, s, frame, st, lo, hi, item_fn, normal, i, scal_h, pre_env, pre_heap, where)
     fr1, st1 = normal[0]
+    # a scalar accumulator that the body turns into an array (`x = 0; for ...: x += <array>`): the scalar is broadcast to
+    # the array's shape in the pre-state and the loop is summarised from there.  The step from the REAL pre-state (scalar)
+    # is checked separately: its first iteration must produce the same values as the first iteration from the broadcast
+    # pre-state (obligation `loop-first-iteration`), so the induction is anchored at the true state after one iteration.
+    for name in modified:
+        if name in target_names or name not in pre_env or not sv.is_scalar(norm(pre_env[name])):
+            continue
+        post_v = fr1.env.get(name)
+        if not (isinstance(post_v, A.Arr) and post_v.sid not in pre_heap and post_v.view is None):
+            continue
+        shape = tuple(st1.heap[post_v.sid].meta["shape"])
+        bad = False
+        for dmn in shape:
+            for t in _terms_of(dmn):
+                if _contains_any(t, hv_consts | {i.t.get_id()}, hv_funcs):
+                    bad = True
+        if bad:
+            continue
+        del st.side[side_mark:]
+        pre_scalar = norm(pre_env[name])
+        with use_state(st):
+            prom = A.new_arr(shape, lambda idx, v=pre_scalar, dt=post_v.dtype: A._cast(v, dt), post_v.dtype)
+        env_p = dict(pre_env)
+        env_p[name] = prom
+        outs_r = [(fr, s2) for fr, s2, o in run_body(pre_env, pre_heap, lo, []) if o[0] in ("normal", "continue")]
+        outs_p = [(fr, s2) for fr, s2, o in run_body(env_p, dict(st.heap), lo, []) if o[0] in ("normal", "continue")]
+        if len(outs_r) != 1 or len(outs_p) != 1:
+            raise EngineError(f"loop variable {name}: scalar accumulator turned into an array on a forking body")
+        (fr_r, st_r), (fr_p, st_p) = outs_r[0], outs_p[0]
+        for sid in set(st_r.heap) & set(pre_heap):
+            if st_r.heap[sid] is not pre_heap[sid]:
+                raise EngineError(f"loop variable {name}: scalar-to-array accumulator in a body that also stores into existing cells")
+        for sid in set(st_p.heap) & set(pre_heap):
+            if st_p.heap[sid] is not pre_heap[sid]:
+                raise EngineError(f"loop variable {name}: scalar-to-array accumulator in a body that also stores into existing cells")
+        for nm in modified:
+            if nm in target_names:
+                continue
+            a, b = fr_r.env.get(nm, _MISSING), fr_p.env.get(nm, _MISSING)
+            if isinstance(a, A.Arr) and isinstance(b, A.Arr):
+                with use_state(st_r):
+                    sa = a.shape
+                with use_state(st_p):
+                    sb = b.shape
+                if len(sa) != len(sb):
+                    goals = [z3.BoolVal(False)]
+                else:
+                    idx = tuple(sv.fresh_int("y") for _ in sa)
+                    rng = [sv.zb(sv.and_(sv.cmp(">=", x, 0), sv.cmp("<", x, dd))) for x, dd in zip(idx, sa)]
+                    goals = []
+                    for da, db in zip(sa, sb):
+                        goals.extend(_eq_goals(da, db))
+                    with use_state(st_r):
+                        va = a.get(idx)
+                    with use_state(st_p):
+                        vb = b.get(idx)
+                    for g in _eq_goals(va, vb):
+                        goals.append(z3.Implies(z3.And(*rng) if rng else z3.BoolVal(True), g))
+            elif (a is _MISSING or sv.is_scalar(norm(a))) and (b is _MISSING or sv.is_scalar(norm(b))):
+                goals = _eq_goals(a, b)
+            else:
+                continue      # other objects (tuples, frames) rebuilt by every iteration: not loop-carried
+            for g in goals:
+                st.side.append(_SideGoal("loop-first-iteration", g, st_p.all_assumptions() + st_r.all_assumptions(), where))
+        frame.env[name] = prom
+        return _symbolic_for(interp, s, frame, state, space)
     touched = sorted({sid for sid in st1.heap if sid in pre_heap and st1.heap[sid] is not pre_heap[sid]})
     # a DataFrame column of integers that the body replaces by its own float/complex promotion (`df[c] += <float array>` on the
     # integer zeros of pd.DataFrame(0, ...)): promote the column in the pre-state (same values: Z is embedded in R, A1/A2) and
@@ -767,7 +833,7 @@ def _rebind_obj(v, st1, st, iz, last):
         c = st1.heap.get(v.sid)
         if c is None:
             return v
-        if v.sid in st.heap and st.heap[v.sid] is c:
+        if v.sid in st.heap:      # a cell that exists outside the loop (untouched, or summarised in place): keep the handle
             return v
         fn = c.data
 
